@@ -689,13 +689,37 @@ def check_C05(tier, seed, extra_programs=None):
             W, doms = _world_and_doms(rng, nv, quick)
             q = mk_query(p, doms, declare="random")
             qc.add(W, [q, copy.deepcopy(q)], _c05_events())
+    # the further grammars: for_all, sub-queries, flatten, concatenate (each re-evaluated under both configurations)
+    for g, nvars, fix in (("G3", 2, None), ("G6", 2, None), ("G7i", 1, _no_repeats), ("G7o", 1, _no_repeats), ("G7c", 2, None)):
+        gp = run.export("GenQuery", f"{g}-bfs", "PROG", constants=dict(G=g, NV=2, LeafLimit=12 if quick else 40, MaxLeaves=2, MaxNot=1,
+                                                                        NeedNot=False), invariants=("Export", "WellFormed"), count=False)
+        for p in rng.sample(gp, min(len(gp), 250 if quick else 6000)):
+            W, doms = _world_and_doms(rng, nvars, quick)
+            if fix:
+                W = fix(copy.deepcopy(W))
+            q = mk_query(p, doms)
+            qc.add(W, [q, copy.deepcopy(q)], _c05_events())
+    # rule trees and rules: evaluated under on, on, off, on
+    for nv in (1, 2):
+        trees = run.export("GenRule", f"trees{nv}", "TREE", constants=dict(MaxNodes=3, NConds=3 if quick else 4, NV=nv),
+                           invariants=("Export", "SizeOK"), count=False)
+        for t in rng.sample(trees, min(len(trees), 150 if quick else 4000)):
+            W, doms = _world_and_doms(rng, nv, quick)
+            q = {"vars": [{"cls": "A", "dom": doms[i]} for i in range(nv)], "flats": [], "bound": [], "desc": "entity",
+                 "quant": "an", "sel": [], "cond": {"k": "true"}, "tree": t, "varkeys": list(range(1, nv + 1))}
+            qc.add(W, [q, copy.deepcopy(q)], [{"op": "cfg", "caching": True}, {"op": "rule", "qi": 1}, {"op": "rule", "qi": 1},
+                                              {"op": "cfg", "caching": False}, {"op": "rule", "qi": 2}, {"op": "rule", "qi": 1},
+                                              {"op": "cfg", "caching": True}, {"op": "rule", "qi": 2}])
     for (W, q) in (extra_programs or []):
         qc.add(W, [q, copy.deepcopy(q)], _c05_events())
 
     def nontrivial(t):
         evs = [e for e in t["evs"] if e["op"] == "drain"]
-        if evs[1].get("hits", 0) > 0 and 0 < len(evs[1]["rows"]) < domain_size(t["qs"][0]):
+        if len(evs) > 1 and evs[1].get("hits", 0) > 0 and 0 < len(evs[1]["rows"]) < domain_size(t["qs"][0]):
             return digest([t["qs"][0]["cond"], t["qs"][0]["sel"]])
+        rules = [e for e in t["evs"] if e["op"] == "rule"]
+        if len(rules) > 1 and rules[1].get("hits", 0) > 0 and rules[1].get("insts"):
+            return digest(t["qs"][0]["tree"])
         return None
     qc.execute(nontrivial)
     return run.finish()
